@@ -391,7 +391,7 @@ func (c *FnCtx) fieldAddr(fr *frame, st *State, guard string, x *ssa.FieldAddr) 
 		return Term{S: c.define("sub", SInt, subRef(ref, x.Field)), Sort: SInt, T: x.Type()}
 	}
 	reg, _ := c.fieldRegion(stT, x.Field)
-	return &Loc{Kind: "field", Region: reg, Ref: ref, T: ft}
+	return &Loc{Kind: "field", Region: reg, Ref: ref, T: ft, Owner: x.X.Type()}
 }
 
 func (c *FnCtx) indexAddr(fr *frame, st *State, guard string, x *ssa.IndexAddr) interface{} {
@@ -454,6 +454,7 @@ func (c *FnCtx) store(fr *frame, st *State, guard string, addr ssa.Value, v Term
 	a := c.valIn(fr, addr)
 	switch p := a.(type) {
 	case *Loc:
+		c.checkGuarded(fr, st, guard, p, true)
 		c.storeLoc(st, p, v)
 	case Term:
 		if p.Sort == "GLOBAL" {
@@ -472,6 +473,29 @@ func (c *FnCtx) store(fr *frame, st *State, guard string, addr ssa.Value, v Term
 	}
 }
 
+// checkGuarded: lock discipline. If the profile declares the region of this field as guarded, the declared
+// condition over the ghost lock state must hold at the access ("o" is the object whose field is accessed).
+func (c *FnCtx) checkGuarded(fr *frame, st *State, guard string, p *Loc, write bool) {
+	if p.Kind != "field" || c.prof.Guarded == nil || p.Owner == nil {
+		return
+	}
+	pair, ok := c.prof.Guarded[p.Region]
+	if !ok {
+		return
+	}
+	n, kind := pair[0], "read"
+	if write {
+		n, kind = pair[1], "write"
+	}
+	if n == nil {
+		return
+	}
+	env := c.newEnv(fr, st)
+	env.bind["o"] = Term{S: p.Ref, Sort: SInt, T: p.Owner}
+	goal := c.evalBool(env, n)
+	c.oblige("guarded", fmt.Sprintf("guarded-%s@%s@%s", kind, strings.TrimPrefix(p.Region, "F_"), shortPos(c.curPos)), guard, goal, n.String())
+}
+
 func (c *FnCtx) globalRegion(name string, t types.Type) string {
 	reg := "GV_" + sanitize(strings.TrimPrefix(name, "GLOBAL:"))
 	c.regionDecl(reg, c.sortOf(t))
@@ -484,6 +508,7 @@ func (c *FnCtx) unop(fr *frame, st *State, guard string, x *ssa.UnOp) interface{
 		a := c.valIn(fr, x.X)
 		switch p := a.(type) {
 		case *Loc:
+			c.checkGuarded(fr, st, guard, p, false)
 			t := c.loadLoc(st, p)
 			t = c.named(t, "ld")
 			if strings.HasSuffix(c.get(st, p.Region), "@0") {
